@@ -1352,7 +1352,7 @@ def run(tier, seed, replay=None):
         obs = observe(case)
         print("oracle:", oracle(case, obs))
         return 0
-    ok = core.proof_stage(ctx, ["Props/C05.vo"], gen_needed=("BitFns", "Consts"))
+    ok = core.proof_stage(ctx, ["Props/C05.vo"], gen_needed=("BitFns", "Consts", "SplitDist"))
     if not ok:
         core.broken_proof(ctx, search)
     n = 240 if tier == "quick" else 4000
